@@ -5,6 +5,7 @@ import (
 	"go/constant"
 	"go/token"
 	"go/types"
+	"math/big"
 
 	"golang.org/x/tools/go/ssa"
 )
@@ -93,8 +94,12 @@ func runC04(c *Ctx) {
 				c.Check("C04.D", "poll:unseen-branch-records-key", p, g.Pos(), hit == nil, "every path through the not-seen branch records the key with previouslySeen.Add(key, …)", "a path through the not-seen branch does not record the key ("+PathString(p, path)+"): the next list reply containing the same ID starts a second worker")
 			}
 			checkLRUConfined(c, p, "C04.O", newc)
-			n, ok := ConstInt(CallOf(newc).Args[0])
-			c.Check("C04.N", "poll:lru-window", p, newc.Pos(), ok && n >= 1000, fmt.Sprintf("lru.New(%d): window ≥ 1000", n), fmt.Sprintf("the dedup window is %d (constant: %v): with up to 1000 distinct IDs outstanding an ID can be evicted and forwarded again", n, ok))
+			// the window: a constant, or any expression whose interval has a lower bound ≥ 1000
+			// (a flag clamped from below by a helper)
+			it := &interp{p: p, globals: map[string]iv{}}
+			win, werr := it.evalValue(CallOf(newc).Args[0], 0)
+			okWin := werr == nil && win.kind == 'i' && win.ilo.Cmp(big.NewInt(1000)) >= 0
+			c.Check("C04.N", "poll:lru-window", p, newc.Pos(), okWin, fmt.Sprintf("lru.New(%s): window ≥ 1000", win), fmt.Sprintf("the dedup window ranges over %s (%v): with up to 1000 distinct IDs outstanding an ID can be evicted and forwarded again", win, werr))
 		}
 	}
 
